@@ -481,12 +481,13 @@ VALUE_POOL = {
                (1, 2), [(1, 2)], [{"a": 1}], {1, 2}],
     "text": ["line1\nline2", "s", "", 5, None, ["a", "b\nc"]],
     "url": ["http://x", "not a url", 5, ""], "person": ["A. B.", 7, ""],
-    "date": [dt.date(2020, 1, 2), "2020-01-02", "2020-1-2", "02.01.2020", dt.datetime(2020, 1, 2, 3, 4, 5), "", None,
+    "date": [dt.date(2020, 1, 2), "2020-01-02", "0999-12-31", dt.date(1, 1, 1), "2020-1-2", "02.01.2020", dt.datetime(2020, 1, 2, 3, 4, 5), "", None,
              ["2020-01-02", "x"], 20200102, "2020-01-02 10:00:00"],
     "time": [dt.time(1, 2, 3), "01:02:03", "1:2:3", "25:00:00", dt.time(1, 2, 3, 456), "01:02", "", None,
              dt.time(1, 2, 3, tzinfo=dt.timezone.utc), "01:02:03+00:00", "01:02:03.5",
              dt.datetime(2020, 1, 2, 3, 4, 5), 5],
-    "datetime": [dt.datetime(2020, 1, 2, 3, 4, 5), "2020-01-02 03:04:05", "2020-01-02T03:04:05",
+    "datetime": [dt.datetime(2020, 1, 2, 3, 4, 5), "2020-01-02 03:04:05", "0999-01-02 03:04:05", dt.datetime(999, 1, 2, 3, 4, 5),
+                 "0001-01-01 00:00:00", "2020-01-02T03:04:05",
                  dt.datetime(2020, 1, 2, 3, 4, 5, 678), dt.date(2020, 1, 2), "2020-01-02", "", None, "x",
                  dt.datetime(2020, 1, 2, 3, 4, 5, tzinfo=dt.timezone.utc),
                  dt.datetime(2020, 1, 2, 3, 4, 5, 9, tzinfo=dt.timezone(dt.timedelta(hours=2))),
